@@ -1002,3 +1002,27 @@ func StripNameConflicts(td *TD) int {
 	})
 	return removed
 }
+
+// DroppedWhenIgnored: with IgnoreInvalidTypes, a field (or element) of this type is left out:
+// an unsupported kind itself, or a slice/array/map whose element type is left out. A struct
+// is never left out as a whole (only its offending fields are).
+func DroppedWhenIgnored(t reflect.Type, ov map[reflect.Type]bool) bool {
+	for t.Kind() == reflect.Pointer {
+		t = t.Elem()
+	}
+	if stdMarshalerTypes[t] || ov[t] {
+		return false
+	}
+	switch t.Kind() {
+	case reflect.Chan, reflect.Func, reflect.Complex64, reflect.Complex128, reflect.UnsafePointer:
+		return true
+	case reflect.Map:
+		if t.Key().Kind() != reflect.String {
+			return true
+		}
+		return DroppedWhenIgnored(t.Elem(), ov)
+	case reflect.Slice, reflect.Array:
+		return DroppedWhenIgnored(t.Elem(), ov)
+	}
+	return false
+}
